@@ -561,8 +561,13 @@ pub fn run_scenario(sc: &Value, ex: &mut Exec) -> usize {
                     Err(e) => format!("panic:{}", panic_msg(e)),
                 }
             }
+            "ReleaseWriter" => {
+                hh.sched_off();
+                "ok".into()
+            }
             "Shutdown" => {
                 sync_point = true;
+                hh.sched_off(); // (a held writer thread is released: shutdown waits for it)
                 let r = catch_unwind(AssertUnwindSafe(|| {
                     if let Some(hd) = &run.handle {
                         hd.shutdown();
@@ -626,6 +631,7 @@ pub fn run_scenario(sc: &Value, ex: &mut Exec) -> usize {
             }
             "Stop" => {
                 sync_point = true;
+                hh.sched_off();
                 let explicit = st
                     .get("shutdown")
                     .and_then(|v| v.as_bool())
